@@ -723,6 +723,7 @@ class ResultFlow:
 
     def __init__(self):
         self.handlers = []      # (kind, closure def path) for inspect_err / map_err / or_else
+        self.handler_blocks = []  # block of each adapter call, parallel to handlers
         self.err_blocks = []    # first blocks executed only when the result is Err
         self.ok_blocks = []     # first blocks executed only when Ok
         self.swallowed = False  # `.ok()`, `let _ =`, dropped without looking
@@ -821,6 +822,7 @@ def result_flow(fn, b):
             if any(name.endswith(s) for s in ERR_ADAPTERS):
                 cl = closure_of_operand(fn, ct["args"][1]) if len(ct["args"]) > 1 else None
                 rf.handlers.append((name.rsplit("::", 1)[1], cl))
+                rf.handler_blocks.append(moved[1])
                 if ct["dest"]["l"] == 0 and not ct["dest"]["p"]:
                     rf.returned = True
                     return rf
